@@ -4,6 +4,8 @@
 //       reset0 <t32|t64> <qsize> <mode> <now> <src:namehex>...   (a node constructed at time <now>; fields filled in by the harness)
 //       t <ms> | poll | run <n> (n times: poll, advance 1 ms) | acc <bits> | accdef <0|1> | canopen <0|1> | claim <dev>
 //       hbset <interval> <offset> <dev|-1> | hbforce | hbdev <dev> | get | m64 | devlist <originA> <originB>
+//       gfreq <dev|-1> <interval ms> <offset 10ms> <pairs>   (PGN 126208 request for PGN 126993 from source 50 arrives, then one poll;
+//                                                           output = the heartbeat frames only, acknowledgements are C09's)
 // C12 oracle: heartbeat grid computed from the observed open time and the configured interval/offset only, payload decoded with
 //             the published layout, sequence counted by the harness.   C13 oracle: the outputs of the runs of a group are compared.
 #include "node.h"
@@ -325,6 +327,49 @@ static void exec(const std::string &line) {
     }
     emit(framesOut(N->sent)); N->sent.clear(); return;
   }
+  if (w[0] == "gfreq") {
+    if (!N->isOpen()) { emit("closed"); return; }
+    int d = atoi(w[1].c_str()); uint32_t iv = (uint32_t)strtoull(w[2].c_str(), 0, 10); unsigned off = (unsigned)strtoul(w[3].c_str(), 0, 10) & 0xffff; unsigned pairs = (unsigned)strtoul(w[4].c_str(), 0, 10) & 0xff;
+    if (d >= nDev) { emit("-"); return; }
+    noteRisk(g_now, 1, false);
+    unsigned dst = d < 0 ? 255 : N->src(d);
+    // reassembled payload: function code 0 (request), PGN, interval (ms, 4 bytes), offset (10 ms, 2 bytes), number of parameter pairs
+    unsigned char pl[11] = {0, 0x11, 0xF0, 0x01, (unsigned char)iv, (unsigned char)(iv >> 8), (unsigned char)(iv >> 16), (unsigned char)(iv >> 24), (unsigned char)off, (unsigned char)(off >> 8), (unsigned char)pairs};
+    static unsigned fpseq = 0; fpseq = (fpseq + 1) & 7;
+    unsigned long id = (3UL << 26) | (0x1EDUL << 16) | ((unsigned long)dst << 8) | 50UL;
+    unsigned char f0[8] = {(unsigned char)(fpseq << 5), 11, pl[0], pl[1], pl[2], pl[3], pl[4], pl[5]};
+    unsigned char f1[8] = {(unsigned char)((fpseq << 5) | 1), pl[6], pl[7], pl[8], pl[9], pl[10], 0xff, 0xff};
+    N->rx(id, 8, f0); N->rx(id, 8, f1);
+    N->sent.clear(); N->ParseMessages();
+    // ---- oracle: a request may set 1000..60000 ms (or keep / restore the default); anything else leaves the heartbeat as it was
+    bool ivOk = iv == KEEP || iv == RESTORE || (iv >= 1000 && iv <= 60000);
+    bool offOk = off == 0xffff || off <= 6000;
+    bool accepted = active() && ivOk && offOk && pairs == 0 && !(iv == KEEP && off == 0xffff);
+    std::vector<Frame> rest;
+    for (int i = 0; i < nDev; i++) {
+      if (d >= 0 && i != d) continue;
+      if (accepted) oracleConfig(iv, (off == 0xffff || off == 0) ? KEEP : off * 10u, i);
+      uint32_t got = N->GetHeartbeatInterval(i);
+      if (oOpen && !preOpenConfig && got != od[i].P) {
+        const char *cls = iv == 0 ? "0" : iv < 1000 ? "below-1000" : (iv > 60000 && iv < RESTORE) ? "above-60000" : !offOk ? "offset" : pairs ? "pairs" : "in-range";
+        C.fail(std::string("C12:gf-request-interval:") + cls, "request interval %u offset %u pairs %u to dev %d: heartbeat interval now %u, must be %u", iv, off, pairs, i, got, od[i].P);
+        od[i].P = got; od[i].O = N->GetHeartbeatOffset(i); if (got) od[i].G = leastGridAfter(od[i], g_now);   // report once
+      }
+      if (oOpen && active() && od[i].P != 0 && (od[i].P < 1000 || od[i].P > 655320)) C.fail("C12:gf-request-interval:range", "dev %d interval %u", i, od[i].P);
+    }
+    for (auto &f : N->sent) {
+      if (!isHb(f)) continue;
+      int dd = devOfSrc(f.id & 0xff);
+      if (f.buf[2] == 0xff && active() && dd >= 0 && (d < 0 || dd == d)) {   // the answer of a served request: a forced heartbeat
+        hbForced++;
+        if (!accepted) C.fail("C12:gf-request-answered", "request interval %u offset %u pairs %u was out of limits but answered with a heartbeat", iv, off, pairs);
+        checkPayload(f, dd, true);
+      } else rest.push_back(f);
+    }
+    std::vector<Frame> hbOnly; for (auto &f : N->sent) if (isHb(f)) hbOnly.push_back(f);
+    oraclePoll(rest); C.count(accepted ? "gf_requests_served" : "gf_requests_refused");
+    emit(framesOut(hbOnly)); N->sent.clear(); return;
+  }
   if (w[0] == "get") {
     std::string s = std::string("open=") + (N->isOpen() ? "1" : "0") + " chg=" + (N->ReadResetDeviceInformationChanged() ? "1" : "0"); char b[96];
     for (int i = 0; i < nDev; i++) {
@@ -391,6 +436,16 @@ static void genHbset(Rng &R, int devs, bool fast) {
   char b[96]; snprintf(b, sizeof b, "hbset %u %u %d", iv, off, d); doOp(b);
 }
 
+static void genGfreq(Rng &R, int devs) {
+  static const uint32_t v[] = {0, 0, 1, 500, 999, 1000, 1000, 1001, 5000, 60000, 60000, 60001, 100000, 655320, RESTORE, KEEP, 0xfffffffdu};
+  uint32_t iv = R.chance(1, 4) ? (uint32_t)R.range(1000, 60000) : (R.chance(1, 8) ? (uint32_t)R.range(0, 70000) : v[R.below(sizeof v / sizeof *v)]);
+  unsigned off = R.chance(1, 2) ? 0xffff : (R.chance(1, 3) ? 0 : (R.chance(1, 8) ? (unsigned)R.range(6001, 65534) : (unsigned)R.range(1, 6000)));
+  if (iv == KEEP && off == 0xffff && R.chance(1, 2)) off = 0;
+  unsigned pairs = R.chance(1, 15) ? (unsigned)R.range(1, 3) : 0;
+  int d = R.chance(1, 4) ? -1 : (int)R.below(devs);
+  char b[96]; snprintf(b, sizeof b, "gfreq %d %u %u %u", d, iv, off, pairs); doOp(b);
+}
+
 // sparse, jittered polling with long gaps (C12 timing oracle + C13 comparison)
 static void genSparse(Rng &R, int devs, bool fast) {
   doOp("run " + std::to_string(R.range(205, 320)));
@@ -409,8 +464,9 @@ static void genSparse(Rng &R, int devs, bool fast) {
     else if (k < 83 && oOpen && od[0].P) dt = od[0].G >= g_now ? od[0].G - g_now + (uint64_t)R.range(0, 2) : 1;   // land on / just after a grid point
     else if (k < 86 && oOpen && od[0].P && od[0].G > g_now + 1) dt = od[0].G - g_now - 1;                          // just before a grid point
     else if (k < 90) { genHbset(R, devs, fast); continue; }
-    else if (k < 92) { doOp("hbforce"); continue; }
-    else if (k < 94) { doOp("hbdev " + std::to_string(R.below(devs + 1))); continue; }
+    else if (k < 91) { doOp("hbforce"); continue; }
+    else if (k < 92) { doOp("hbdev " + std::to_string(R.below(devs + 1))); continue; }
+    else if (k < 94) { genGfreq(R, devs); continue; }
     else if (k < 96) { doOp("claim " + std::to_string(R.below(devs))); continue; }
     else if (k < 98) { doOp("get"); continue; }
     else { doOp("m64"); continue; }
@@ -428,7 +484,8 @@ static void genDense(Rng &R, int devs, bool bp) {
   int segs = (int)R.range(3, 8);
   for (int i = 0; i < segs; i++) {
     unsigned k = (unsigned)R.below(100);
-    if (k < 50) genHbset(R, devs, true);
+    if (k < 40) genHbset(R, devs, true);
+    else if (k < 50 && !bp) genGfreq(R, devs);
     else if (k < 60) doOp("hbforce");
     else if (k < 70) doOp("claim " + std::to_string(R.below(devs)));
     else if (k < 75) doOp("hbdev " + std::to_string(R.below(devs)));
@@ -488,6 +545,17 @@ int main(int argc, char **argv) {
       snprintf(b, sizeof b, "reset0 %s 40 1 2 %llu", FLAVOR, (unsigned long long)o); exec(b);
       for (const char *l : {"run 260", "hbset 100000 0 -1", "t 100000", "poll", "hbset 5000 100 1", "get", "hbset 4294967295 500 -1", "get", "t 5000", "poll", "t 5000", "poll",
                             "hbset 0 0 -1", "t 200000", "poll", "hbset 100000 500 0", "t 100000", "poll", "hbset 0 0 0", "hbforce", "t 100000", "poll", "t 100000", "poll", "get", "m64"}) exec(l);
+    }
+    finishGroup();
+  }
+  // directed: group-function requests for PGN 126993 over the bus, every interval class
+  {
+    exec("scenario d2"); char b[160];
+    for (uint64_t o : {0ULL, 0xFFFFFFFFULL - 20000ULL}) {
+      snprintf(b, sizeof b, "reset0 %s 40 2 2 %llu", FLAVOR, (unsigned long long)o); exec(b);
+      for (const char *l : {"run 460", "gfreq 0 5000 65535 0", "t 5000", "poll", "gfreq 0 0 65535 0", "t 5000", "poll", "t 5000", "poll", "gfreq -1 999 0 0", "gfreq 1 1000 100 0", "t 1000", "poll",
+                            "gfreq 1 60001 65535 0", "gfreq 1 60000 65535 0", "gfreq 0 4294967294 65535 0", "get", "gfreq 0 4294967295 200 0", "gfreq 0 4294967295 65535 0", "gfreq 0 2000 7000 0", "gfreq 0 2000 0 1",
+                            "gfreq -1 0 0 0", "t 60000", "poll", "t 60000", "poll", "get"}) exec(l);
     }
     finishGroup();
   }
